@@ -449,6 +449,11 @@ class Program(object):
                     ref = self.resolve_expr_ref(module, fn, cls)
                 except AnalysisError:
                     ref = None
+            if isinstance(ref, FunctionInfo) and ref.cls is None and not getattr(self, '_folding_by_interp', False):
+                # a module-level table built by a helper function of the package: evaluate the helper
+                args = [f(a, module, cls, env) for a in expr.args]
+                kwargs = {kw.arg: f(kw.value, module, cls, env) for kw in expr.keywords if kw.arg}
+                return self._fold_by_interp(ref, args, kwargs)
             if isinstance(ref, External):
                 if ref.name == 're.compile':
                     args = [f(a, module, cls, env) for a in expr.args]
@@ -474,6 +479,23 @@ class Program(object):
                         raise Unfoldable('sorted')
                 if ref.name == 'builtins.dict' and not expr.args:
                     return {kw.arg: f(kw.value, module, cls, env) for kw in expr.keywords}
+            if isinstance(fn, ast.Attribute) and fn.attr in ('encode', 'decode', 'lower', 'upper', 'strip', 'lstrip', 'rstrip', 'format',
+                                                              'join', 'replace', 'keys', 'values', 'items', 'copy', 'union') \
+                    and not isinstance(ref, (FunctionInfo, ClassInfo)):
+                # a pure method of a foldable constant (e.g. PATTERN.encode('ascii'))
+                try:
+                    base = f(fn.value, module, cls, env)
+                except Unfoldable:
+                    base = None
+                if isinstance(base, (str, bytes, dict, frozenset, tuple, list)) and not expr.keywords:
+                    args = [f(a, module, cls, env) for a in expr.args]
+                    try:
+                        r_ = getattr(base, fn.attr)(*args)
+                    except Exception as e:
+                        raise Unfoldable('%s: %s' % (ast.dump(expr)[:60], e))
+                    if fn.attr in ('keys', 'values', 'items'):
+                        r_ = list(r_)
+                    return r_
             raise Unfoldable(ast.dump(expr)[:80])
         if isinstance(expr, ast.Subscript):
             v = f(expr.value, module, cls, env)
@@ -551,6 +573,54 @@ class Program(object):
                 pass
             raise Unfoldable('comparison')
         raise Unfoldable(type(expr).__name__)
+
+    def _fold_by_interp(self, fi, args, kwargs):
+        """Value of a call of a side-effect-free package function on constant arguments, obtained by abstract
+        interpretation: exactly one path, returning a fully concrete value - anything else does not fold."""
+        from sa.interp import Interp
+        from sa.values import ADict, AList, concrete, is_concrete
+        self._folding_by_interp = True
+        try:
+            I = Interp(self)
+            paths = []
+            try:
+                for path in I.explore(lambda: I.call_function(fi, list(args), dict(kwargs), None)):
+                    paths.append(path)
+                    if len(paths) > 1:
+                        raise Unfoldable('%s() has more than one path' % fi.name)
+            except AnalysisError as e:
+                raise Unfoldable('%s(): %s' % (fi.name, e))
+            if len(paths) != 1 or paths[0].outcome != 'return':
+                raise Unfoldable('%s() does not simply return' % fi.name)
+            for ev in paths[0].events:
+                if ev.kind.startswith('stream-') or (ev.kind in ('mutate', 'item-store', 'attr-store') and getattr(ev.data.get('obj'), 'shared', None)):
+                    raise Unfoldable('%s() has effects' % fi.name)
+
+            def conv(v, d=0):
+                if d > 12:
+                    raise Unfoldable('value too deep')
+                if isinstance(v, ADict):
+                    if v.open:
+                        raise Unfoldable('open mapping')
+                    return {k: conv(x, d + 1) for k, x in v.items.items()}
+                if isinstance(v, AList):
+                    if v.unknown:
+                        raise Unfoldable('unknown list')
+                    return [conv(x, d + 1) for x in v.items]
+                if isinstance(v, tuple):
+                    return tuple(conv(x, d + 1) for x in v)
+                if is_concrete(v):
+                    c = concrete(v)
+                    if isinstance(c, (str, bytes, int, float, bool, type(None), frozenset)):
+                        return c
+                    if isinstance(c, (tuple, list)):
+                        return type(c)(conv(x, d + 1) for x in c)
+                    if isinstance(c, dict):
+                        return {k: conv(x, d + 1) for k, x in c.items()}
+                raise Unfoldable('%s() returns a value that is not a constant' % fi.name)
+            return conv(paths[0].value)
+        finally:
+            self._folding_by_interp = False
 
     def _fold_ref(self, r, expr):
         if r is None:
